@@ -269,6 +269,23 @@ template <class P> static void keep(P&& p, int node) {
 }
 static Async::Promise<int>& IP(int node) { return M->ints[M->slot[node]]; }
 
+// The combinators also take plain values ("whenAll(p1, 123, p3)"): an input that is already fulfilled is, now and then, handed over as its value
+// instead of as a promise - the statement makes no difference between the two, and neither does the model.
+static long g_plain_value_inputs = 0;
+template <size_t N> struct IntTuple;
+template <> struct IntTuple<1> { typedef std::tuple<int> type; }; template <> struct IntTuple<2> { typedef std::tuple<int, int> type; };
+template <> struct IntTuple<3> { typedef std::tuple<int, int, int> type; }; template <> struct IntTuple<4> { typedef std::tuple<int, int, int, int> type; };
+template <size_t N, bool ANY, class... A> static void build_when(int ci, int res, const std::vector<int>& in, const std::vector<char>& plain, A&&... a) {
+    constexpr size_t k = sizeof...(A);
+    if constexpr (k == N) {
+        auto rej = CustomRej{ci};
+        if constexpr (ANY) { auto p = Async::whenAny(std::forward<A>(a)...); p.then([ci](const Async::Any& x) { MVal v; if (x.is<int>()) v.ints.push_back(x.cast<int>()); else v.str = "<not-int>"; record_ok(ci, v); }, rej); keep(std::move(p), res); }
+        else { auto p = Async::whenAll(std::forward<A>(a)...); p.then([ci](const typename IntTuple<N>::type& t) { record_ok(ci, tuple_val(t, std::make_index_sequence<N>())); }, rej); keep(std::move(p), res); }
+    } else {
+        if (plain[k]) { int v = (int)M->nodes[in[k]].val.ints[0]; if (k % 2) build_when<N, ANY>(ci, res, in, plain, std::forward<A>(a)..., v); else build_when<N, ANY>(ci, res, in, plain, std::forward<A>(a)..., int(v)); }   // (as an lvalue and as a temporary)
+        else build_when<N, ANY>(ci, res, in, plain, std::forward<A>(a)..., IP(in[k]));
+    }
+}
 static void op_when(bool any, const std::vector<int>& inputs) {
     // model: the real whenX attaches to its inputs in argument order, synchronously
     std::string tr = std::string(any ? "whenAny(" : "whenAll(");
@@ -281,6 +298,22 @@ static void op_when(bool any, const std::vector<int>& inputs) {
     for (size_t k = 0; k < inputs.size(); k++) { int cidx = M->nodes[inputs[k]].conts.back(); (void)cidx; }
     // fire model continuations of already-settled inputs in argument order
     for (size_t k = 0; k < inputs.size(); k++) if (M->nodes[inputs[k]].st != M_PENDING) { for (int c2 : M->nodes[inputs[k]].conts) if (M->conts[c2].kind == K_WHEN && M->conts[c2].when == wi && M->conts[c2].whenIndex == (int)k) fire(c2); }
+    // plain values among the inputs (one program in four; only inputs that are fulfilled int nodes qualify)
+    std::vector<char> plain(inputs.size(), 0); bool anyPlain = false;
+    if ((M->step + (int)inputs.size()) % 4 == 1) for (size_t k = 0; k < inputs.size(); k++) if (M->nodes[inputs[k]].st == M_FULFILLED && M->nodes[inputs[k]].type == T_INT && !M->nodes[inputs[k]].val.ints.empty() && (k + (size_t)M->step) % 3 != 0) { plain[k] = 1; anyPlain = true; }
+    if (anyPlain && (inputs.size() > 3 || (any && inputs.size() > 2))) anyPlain = false;   // (kept to 20 instantiations: every one of them is a template family of its own)
+    if (anyPlain) {
+        M->trace.push_back("  (inputs handed over as plain values: " + [&] { std::string t; for (size_t k = 0; k < plain.size(); k++) if (plain[k]) t += "n" + std::to_string(inputs[k]) + " "; return t; }() + ")");
+        g_plain_value_inputs++; count("combinators_with_plain_value_inputs");
+        switch (inputs.size()) {
+        case 1: if (any) build_when<1, true>(ci, res, inputs, plain); else build_when<1, false>(ci, res, inputs, plain); break;
+        case 2: if (any) build_when<2, true>(ci, res, inputs, plain); else build_when<2, false>(ci, res, inputs, plain); break;
+        default: build_when<3, false>(ci, res, inputs, plain); break;
+        }
+        M->nodes[res].conts.push_back(ci);
+        if (M->nodes[res].st != M_PENDING) fire(ci);
+        return;
+    }
     auto rej = CustomRej{ci};
     if (any) {
         auto onAny = [ci](const Async::Any& a) { MVal v; if (a.is<int>()) v.ints.push_back(a.cast<int>()); else v.str = "<not-int>"; record_ok(ci, v); };
